@@ -1,5 +1,5 @@
 use crate::base::{BaseSlot, BlockError, EntryContext, StatSlot};
-use lazy_static::lazy_static;
+use crate::vsync::lazy_static;
 use std::sync::Arc;
 
 const STAT_SLOT_ORDER: u32 = 2000;
